@@ -12,10 +12,10 @@ PROPS = {
     'C07': ['DISPATCH', 'ACDUAL', 'MERGE', 'PARALLEL', 'COLLECTALL'],
     'C08': ['UNIONCONTRIB', 'PRODUCT', 'WORKLIST', 'DRAIN', 'INIT', 'COLLECTALL'],
     'C09': ['DISPATCH', 'ACDUAL', 'MEMO', 'HASHEQ', 'ORDTOTAL'],
-    'C10': ['UNIONCONTRIB', 'PRODUCT', 'PAIRFIELD', 'FINCHK', 'WORKLIST', 'DRAIN', 'COW'],
+    'C10': ['UNIONCONTRIB', 'PRODUCT', 'PAIRFIELD', 'FINCHK', 'WORKLIST', 'DRAIN', 'PARAMPATH', 'COW'],
     'C11': ['COW', 'CLEARALL', 'HASHCONS'],
-    'C13': ['TEXT'],
-    'C12': ['COW', 'HASHCONS', 'ITER', 'CLEARALL'],
+    'C13': ['TEXT', 'PARAMPATH', 'PAIRFIELD'],
+    'C12': ['COW', 'HASHCONS', 'ITER', 'CLEARALL', 'PARAMPATH'],
     'C14': ['KIND', 'COW'],
     'C15': ['FINCHK', 'WORKLIST', 'DRAIN', 'KIND', 'HASHCONS', 'COW'],
     'C17': ['CANON', 'TEXT'],
@@ -49,6 +49,7 @@ FILTER = {
     ('C15', 'FINCHK'): r'explicit_tree', ('C15', 'WORKLIST'): r'explicit_tree_candidate|explicit_tree_unreach', ('C15', 'DRAIN'): r'explicit_tree_candidate|explicit_tree_unreach',
     ('C15', 'KIND'): r'explicit_tree_candidate', ('C15', 'HASHCONS'): r'explicit_tree_candidate', ('C15', 'COW'): r'explicit_tree_candidate|explicit_tree_unreach',
     ('C03', 'DRAIN'): r'explicit_tree', ('C08', 'DRAIN'): r'bdd_', ('C10', 'DRAIN'): r'explicit_finite',
+    ('C10', 'PARAMPATH'): r'explicit_finite', ('C12', 'PARAMPATH'): r'explicit_tree',
     ('C12', 'COW'): r'explicit_tree',
     ('C14', 'COW'): r'explicit_tree', ('C14', 'KIND'): r'explicit_tree|explicit_finite|bdd_',
     ('C19', 'DISPATCH'): r'aut_base\.hh|explicit_tree_incl\.cc', ('C19', 'KIND'): r'explicit_tree',
